@@ -274,6 +274,26 @@ Definition op_rewrite (fr : frec) (tag ref len : Z) (data : list Z) : frec * wlo
       end
   end.
 
+(** Hdupdd(tag, ref, otag, oref): a second descriptor for the data of an existing element.  HTPcreate refuses a
+    tag/ref that is in use BEFORE it claims a descriptor slot: a refused request leaves no trace *)
+Definition op_dup (fr : frec) (tag ref otag oref : Z) : frec * wlog :=
+  match find_dd (f_blocks fr) otag oref with
+  | None => (fr, [])
+  | Some (bi, i) =>
+      match nth_error (f_blocks fr) bi with
+      | None => (fr, [])
+      | Some mb =>
+          match nth_error (b_dds (m_blk mb)) i with
+          | None => (fr, [])
+          | Some d =>
+              if has_dd fr tag ref then (fr, []) else
+              let '(slot, fr1, w1) := create_dd fr tag ref in
+              let '(fr2, w2) := update_dd fr1 (fst slot) (snd slot) (mkdd tag ref (d_off d) (d_len d)) in
+              (fr2, w1 ++ w2)
+          end
+      end
+  end.
+
 (** HTPsync: every dirty block, head to tail: header, then the whole DD list *)
 Definition block_writes (b : block) : wlog :=
   [(b_off b, enc_hdr (b_ndds b) (b_next b)); (b_off b + hdr_sz, enc_dds (b_dds b))].
@@ -301,7 +321,8 @@ Inductive op :=
 | OpDel (tag ref : Z)
 | OpGet
 | OpCopy (tag ref len : Z) (data : list Z)
-| OpRewrite (tag ref len : Z) (data : list Z).
+| OpRewrite (tag ref len : Z) (data : list Z)
+| OpDup (tag ref otag oref : Z).
 
 Definition run_op (fr : frec) (o : op) : frec * wlog :=
   match o with
@@ -312,6 +333,7 @@ Definition run_op (fr : frec) (o : op) : frec * wlog :=
   | OpGet => op_get fr
   | OpCopy t r l d => op_copy fr t r l d
   | OpRewrite t r l d => op_rewrite fr t r l d
+  | OpDup t r ot orf => op_dup fr t r ot orf
   end.
 
 Fixpoint run_ops (fr : frec) (ops : list op) : frec * wlog :=
@@ -355,6 +377,7 @@ Definition op_ok (o : op) : bool :=
   | OpCopy t r l d => (0 <=? t) && (t <? 65536) && negb (t =? DFTAG_NULL) && (0 <=? r) && (r <? 65536) &&
                       (0 <=? l) && (zlen d <=? l) && byte_list_ok d
   | OpRewrite _ _ _ _ => false
+  | OpDup _ _ _ _ => false
   end.
 
 (** the wider class of the first sentence of the property: deletions of old elements are allowed too
@@ -364,5 +387,6 @@ Definition op_ok1 (o : op) : bool :=
   match o with
   | OpDel _ _ => true
   | OpRewrite _ _ l d => (0 <=? l) && (zlen d <=? l)
+  | OpDup _ _ _ _ => true
   | _ => op_ok o
   end.
